@@ -17,6 +17,7 @@ import (
 	"math"
 	"strconv"
 	"strings"
+	"sync"
 
 	"filippo.io/sunlight"
 	"filippo.io/sunlight/internal/verifmc"
@@ -313,6 +314,68 @@ func (b *c11Base) logLineSpan() (int, int) {
 	panic("unreachable")
 }
 
+// c11LeadingZeroTime deterministically finds a tree head timestamp for which
+// the PKCS#1 v1.5 signature of the embedded RSA key over (time, 256, random
+// root) starts with a 0x00 byte (about one tree head in 256 has that shape):
+// such a signature has a shorter "minimal integer" form that only a verifier
+// which normalises signature lengths would accept. -1 if none is found.
+var c11LZOnce sync.Once
+var c11LZTime int64 = -1
+
+const c11LZSize = 256
+
+func c11LeadingZeroTime() int64 {
+	c11LZOnce.Do(func() {
+		root := c11Roots()[2]
+		for i := int64(0); i < 20000; i++ {
+			t := c11Times[2] + 1 + i
+			if sig := c11STHSignature(c11Keys["rsa"], uint64(t), c11LZSize, root); sig[0] == 0 {
+				c11LZTime = t
+				return
+			}
+		}
+	})
+	return c11LZTime
+}
+
+// c11DERVariants re-encodes a well-formed ECDSA-Sig-Value with one INTEGER
+// zero-padded or stripped of its first byte (all lengths fixed up), and with a
+// long-form SEQUENCE length.
+func c11DERVariants(der []byte) (out []struct {
+	what string
+	der  []byte
+}) {
+	if len(der) < 8 || der[0] != 0x30 || int(der[1]) != len(der)-2 || der[2] != 0x02 {
+		return nil
+	}
+	lr := int(der[3])
+	if 4+lr+2 > len(der) || der[4+lr] != 0x02 {
+		return nil
+	}
+	r, sv := der[4:4+lr], der[4+lr+2:]
+	enc := func(r, s []byte) []byte {
+		body := append([]byte{0x02, byte(len(r))}, r...)
+		body = append(append(body, 0x02, byte(len(s))), s...)
+		return append([]byte{0x30, byte(len(body))}, body...)
+	}
+	add := func(what string, d []byte) {
+		out = append(out, struct {
+			what string
+			der  []byte
+		}{what, d})
+	}
+	z := func(b []byte) []byte { return append([]byte{0}, b...) }
+	add("r zero-padded", enc(z(r), sv))
+	add("s zero-padded", enc(r, z(sv)))
+	add("r and s zero-padded", enc(z(r), z(sv)))
+	add("r without its first byte", enc(r[1:], sv))
+	add("s without its first byte", enc(r, sv[1:]))
+	add("long-form SEQUENCE length", append([]byte{0x30, 0x81, der[1]}, der[2:]...))
+	add("long-form INTEGER length", append(append([]byte{0x30, der[1] + 1, 0x02, 0x81, der[3]}, r...), der[4+lr:]...))
+	add("trailing zero inside the SEQUENCE", append(append([]byte{0x30, der[1] + 1}, der[2:]...), 0))
+	return out
+}
+
 // ---------------------------------------------------------------------------
 // Enumeration
 
@@ -358,6 +421,12 @@ func (e *c11Enum) partB() {
 		for i := 0; i < 6; i++ {
 			specs = append(specs, spec{"ecdsa2", c11ValidOrigins[i%3], c11Sizes[(i+3)%7], roots[i%3], c11Times[(i+1)%4], -1, i == 0})
 		}
+	}
+	if lz := c11LeadingZeroTime(); lz >= 0 {
+		// an RSA signature starting with 0x00: only this shape has a shorter integer form
+		specs = append(specs, spec{"rsa", c11ValidOrigins[0], c11LZSize, roots[2], lz, -1, false})
+	} else {
+		e.rp.Note("rsa_leading_zero_signature_base", "none found in 20000 timestamps")
 	}
 	nbases := 0
 	for _, s := range specs {
@@ -699,6 +768,19 @@ func (e *c11Enum) structured(b *c11Base) {
 	hdr := raw[:14]
 	mk := func(parts ...[]byte) []byte { return b.withRaw(bytes.Join(parts, nil)) }
 	u16 := func(n int) []byte { return []byte{byte(n >> 8), byte(n)} }
+	// the signature as an integer: leading bytes stripped / zero-padded, length prefix fixed up
+	// (an RSA signature must have exactly the modulus length, an ECDSA one must be DER)
+	lead := fmt.Sprintf(" (signature starts with %#02x)", sig[0])
+	for k := 1; k <= 2; k++ {
+		try("sig-strip-leading", fmt.Sprintf("first %d signature byte(s) dropped, length prefix %d", k, len(sig)-k)+lead, mk(hdr, u16(len(sig)-k), sig[k:]))
+		try("sig-pad-leading", fmt.Sprintf("%d zero byte(s) before the signature, length prefix %d", k, len(sig)+k)+lead, mk(hdr, u16(len(sig)+k), make([]byte, k), sig))
+		try("sig-pad-trailing", fmt.Sprintf("%d zero byte(s) after the signature, length prefix %d", k, len(sig)+k), mk(hdr, u16(len(sig)+k), sig, make([]byte, k)))
+	}
+	if b.key.Kind == "ecdsa" {
+		for _, v := range c11DERVariants(sig) {
+			try("sig-der", "ECDSA signature re-encoded: "+v.what, mk(hdr, u16(len(v.der)), v.der))
+		}
+	}
 	try("blob-shape", "empty signature vector, signature left behind it", mk(hdr, u16(0), sig))
 	try("blob-shape", "signature vector twice", mk(hdr, u16(len(sig)), sig, u16(len(sig)), sig))
 	try("blob-shape", "signature bytes twice in one vector", mk(hdr, u16(2*len(sig)), sig, sig))
